@@ -143,4 +143,37 @@ theorem f32_store_load_normal (s : Bool) (e m q : Nat) (he1 : 896 < e) (he2 : e 
     have he : e - 895 + 896 = e + 1 := by omega
     rw [h32, hform, hw, he, Nat.zero_mul]
 
+/-- widening a SUBNORMAL float32 `m·2^−149` (`0 < m < 2^23`, `p = ⌊log2 m⌋`): the double has exponent field `p + 874` and
+significand `m·2^(52−p)`, i.e. exactly the value `m·2^(52−p)·2^(p+874−1075) = m·2^−149`. -/
+theorem f32ToF64_subnormal (s : Bool) (m : Nat) (h0 : 0 < m) (hm : m < 2 ^ 23) :
+    f32ToF64 ((if s then 2 ^ 31 else 0) + m) = mkF64 s (Nat.log2 m + 874) ((m - 2 ^ Nat.log2 m) * 2 ^ (52 - Nat.log2 m)) ∧
+    (m - 2 ^ Nat.log2 m) * 2 ^ (52 - Nat.log2 m) + 2 ^ 52 = m * 2 ^ (52 - Nat.log2 m) ∧
+    (m - 2 ^ Nat.log2 m) * 2 ^ (52 - Nat.log2 m) < 2 ^ 52 := by
+  have hne : m ≠ 0 := by omega
+  have hlo := Nat.log2_self_le hne
+  have hhi := Nat.lt_log2_self (n := m)
+  have hp : Nat.log2 m < 23 := (Nat.log2_lt hne).mpr hm
+  generalize hpdef : Nat.log2 m = p at *
+  have hpow : 2 ^ p * 2 ^ (52 - p) = 2 ^ 52 := by rw [← Nat.pow_add]; congr 1; omega
+  have hsplit : (m - 2 ^ p) * 2 ^ (52 - p) + 2 ^ p * 2 ^ (52 - p) = m * 2 ^ (52 - p) := by
+    rw [← Nat.add_mul]; congr 1; omega
+  have hlt : (m - 2 ^ p) * 2 ^ (52 - p) < 2 ^ p * 2 ^ (52 - p) :=
+    Nat.mul_lt_mul_of_pos_right (by rw [Nat.pow_succ] at hhi; omega) (Nat.pow_pos (by decide))
+  refine ⟨?_, by rw [← hpow]; exact hsplit, by rw [← hpow]; exact hlt⟩
+  simp only [Nat.reducePow] at hm
+  unfold f32ToF64 mkF64
+  cases s <;> simp only [Nat.reducePow, Bool.false_eq_true, if_false, if_true]
+  · have e1 : (0 + m) / 2147483648 % 2 = 0 := by omega
+    have e2 : (0 + m) / 8388608 % 256 = 0 := by omega
+    have e3 : (0 + m) % 8388608 = m := by omega
+    simp only [e1, e2, e3]
+    have c2 : ¬ (m == 0) = true := by simp; omega
+    simp [c2, hpdef]
+  · have e1 : (2147483648 + m) / 2147483648 % 2 = 1 := by omega
+    have e2 : (2147483648 + m) / 8388608 % 256 = 0 := by omega
+    have e3 : (2147483648 + m) % 8388608 = m := by omega
+    simp only [e1, e2, e3]
+    have c2 : ¬ (m == 0) = true := by simp; omega
+    simp [c2, hpdef]
+
 end GojaModel.C17
